@@ -30,6 +30,8 @@ import YarlProofs.C02Tokens
   Continued in C02HeadlineMore3.lean (C06More2.lean, added later): user / password of `build(authority=…)` (GAPS 3).
   Continued further in C02HeadlineMore4.lean (headline theorems for the proof modules added after the last refresh:
   C02More3.lean; the GAPS block below cites them).
+  Continued in C02HeadlineMore5.lean (C02QueryStr.lean, added later: the STRING forms of with_query / extend_query /
+  update_query; GAPS 3, 6, 7, 8).
 -/
 set_option linter.unusedVariables false
 namespace Yarl
@@ -273,8 +275,8 @@ GAPS:
     STRING (build(query_string=), with_query, extend_query) keeps its '&' / '=' as separators piece for piece ('+' =
     space on both sides); a pairs / mapping argument gives exactly ONE '&'-piece per pair with the supplied bytes
     (`C02_PairsStored`); update_query stores `MultiDict(old).update(new)` (C12) one piece per pair — for it a STRING is
-    ESCAPED text ("%41" is "A"; C12 observation C12_str_argument_pct_differs) and the OLD pairs must be `GoodPairs`
-    (true of every reachable URL); `join` only splices encoded segments: every raw part of the result is a raw part of
+    ESCAPED text ("%41" is "A"; C12 observation C12_str_argument_pct_differs; exact statements: EXTENDED paragraph
+    below) and the OLD pairs must be `GoodPairs` (true of every reachable URL); `join` only splices encoded segments: every raw part of the result is a raw part of
     the base or the reference, "" or "/".  SIDE CONDITION the module reports: join needs a ROOTED base (a path next to an
     authority is empty or starts with '/') — automatic for every base reachable through the auto-encoding API
     (C02_join_segments_reachable), only violated by `encoded=True` bases:
@@ -292,9 +294,34 @@ GAPS:
     non-IPv6 hosts and a missing host (the proof goes through the shape of the stored authority, established for the
     supported host kinds only).  (The host of `authority=` is not a C02 clause: C16; its read-back is
     C06_headline_build_authority_host_readback, C06HeadlineMore3.lean.)
+    EXTENDED (the STRING forms of the three query modifiers, each with its own exact statement) by
+    C02_qstr_with_query_stored, C02_qstr_extend_query_stored (+ _stored_amp), C02_qstr_with_query_form_decoding,
+    C02_qstr_extend_query_form_decoding, C02_qstr_literal_delims_split, C02_qstr_literal_delims_positions,
+    C02_qstr_update_preserves_values, C02_qstr_parse_bytes (+ _iff), C02_qstr_formDecode_exact_iff,
+    C02_qstr_update_delims_reencoded, C02_qstr_update_undecodable_byte / _escape / _not_valid,
+    C02_qstr_update_replacement_stored, C02_qstr_update_literal_delims_fail, C02_qstr_instance_* (C02QueryStr.lean), see
+    C02_headline_qstr_text_forms_stored, C02_headline_qstr_with_query_decoded_values,
+    C02_headline_qstr_extend_query_decoded_values, C02_headline_qstr_text_forms_literal_delims,
+    C02_headline_qstr_update_query_decoded_values, C02_headline_qstr_update_query_bytes_iff_escapes_valid,
+    C02_headline_qstr_update_query_fails_for_undecodable_escape, C02_headline_qstr_update_query_delims_reencoded,
+    C02_headline_qstr_update_query_literal_delims_fail, C02_headline_qstr_instances, C02_headline_qstr_vocabulary_def
+    (C02HeadlineMore5.lean).  The sentence above ("for update_query a STRING is ESCAPED text") is now exact.
+    with_query(<str>) / extend_query(<str>) take the string as TEXT: the stored text is `QUERY_QUOTER(s)` resp. the old
+    query, "&" (unless the old query is empty or ends in '&'), `QUERY_QUOTER(s)` — for EVERY string, no hypothesis;
+    piece for piece the stored key / value form-decode to the UTF-8 bytes of the supplied key / value text ('+' = space
+    on both sides, '%' is DATA: "%2B" is stored "%252B"); hypotheses `PyStr s` (with_query), `GoodText s` and `s ≠ ""`
+    (extend_query).  update_query(<str>) — and the `%` operator, which is the same call (C12Headline.lean GAPS 12) —
+    PARSES the string: with `R = MultiDict(old pairs).update(parse_qsl(s))` the stored query has one '&'-piece
+    `QUERY_PART_QUOTER(key)=QUERY_PART_QUOTER(value)` per pair of `R`, form-decoding to exactly the bytes of that pair,
+    and `parse_qsl(s)` has one pair per NON-EMPTY '&'-piece of `s` (';' no separator, split at the first '='); the
+    pair carries the form-decoded bytes of the supplied piece's key / value text IF AND ONLY IF every escape of `s`
+    decodes to valid UTF-8 (`EscapesValid s`; hypotheses `GoodText s`, `GoodPairs (queryPairs u)`, `parse_qsl(s) ≠ []`).
+    Where `EscapesValid` fails the clause "preserves every decoded value" is FALSE: item 8.  Delimiter status under
+    update_query(<str>): item 6 (FALSE).
     STILL OPEN otherwise: `encoded=True` calls (nothing is encoded there; what is stored: C07Encoded.lean,
     C07_headline_build_encoded_true_verbatim, C07HeadlineMore3.lean); list-valued mappings for update_query
-    (`SingleValued` is assumed there; C12 has them).
+    (`SingleValued` is assumed there; C12 has them); `build(query=<str>)` has no C02 statement of its own (it is
+    rendered by `get_str_query` like with_query(<str>): C06_headline_build_query_str_readback).
  4. CLOSED by C12_parseQsl_requote (C12More.lean), see C02_headline_query_parse_qsl (C02HeadlineMore.lean).  Proved:
     `parseQsl (Gen.QUERY_REQUOTER.run b s) = parseQsl s` for `PyStr s`, `NoSurrogate s` (text-level decoding with
     errors='replace' included), and at URL level `queryPairs u = parseQsl p.query` for a constructed URL (`p.query` the
@@ -354,9 +381,29 @@ GAPS:
     spelling of a literal token; the output has no literal space; `with_query(<str>)` / `build(query_string=)` never
     write an encoded '&' '=' ';' '+' ' ' and store a supplied '%' as "%25".  So "literal ones stay literal" is FALSE by
     the letter for a literal ' ' (it becomes the literal '+', same form-decoded byte) and true for everything else.
-    Not covered: `extend_query` / `update_query` with a string, and `build(query=<str>)` (their stored pieces:
+    WAS: Not covered: `extend_query` / `update_query` with a string, and `build(query=<str>)` (their stored pieces:
     C02_headline_query_string_argument, C02_headline_update_query, C06_headline_build_query_str_readback — no token
     statement).
+    PARTLY CLOSED (extend_query(<str>): CLOSED; update_query(<str>): the clause is PROVED FALSE; `build(query=<str>)`:
+    STILL OPEN, no token statement) by C02_qstr_literal_delims_split, C02_qstr_literal_delims_positions,
+    C02_qstr_update_delims_reencoded, C02_qstr_update_literal_delims_fail (C02QueryStr.lean), see
+    C02_headline_qstr_text_forms_literal_delims, C02_headline_qstr_update_query_delims_reencoded,
+    C02_headline_qstr_update_query_literal_delims_fail (C02HeadlineMore5.lean).  Proved: the stored text of BOTH text
+    forms is `QUERY_QUOTER` of the argument (after the old query, for extend_query), and for every Python string that
+    quoter output has a literal '&' / '=' / ';' exactly where the UTF-8 bytes of the argument have that byte (as a
+    split statement and token by token), a literal '+' exactly where they have '+' or ' ', never an escape %26 %3D %3B
+    %2B, and one token per supplied byte — so for with_query / extend_query "literal ones stay literal" holds with the
+    one exception of this item (' ' → '+').  For update_query(<str>) "literal ones stay literal" is FALSE BY THE LETTER,
+    in general and not only for ' ': under `GoodText s`, `GoodPairs (queryPairs u)`, `parse_qsl(s) ≠ []` the stored query
+    NEVER contains a literal ';' and every stored '&'-piece has EXACTLY ONE literal '=' — a literal ';' and every
+    literal '=' after the first of a piece are stored %3B / %3D, a piece without '=' GAINS one, an empty '&'-piece
+    DISAPPEARS, and the OLD pieces are re-rendered the same way; four calls on every environment:
+    update_query("a=x=y") stores "a=x%3Dy", ("s=a;b") "s=a%3Bb", ("a") "a=", ("a=1&&b=2") "a=1&b=2", where with_query
+    stores the argument unchanged.  Decoded values and the pairs read back are the same in each case (item 3), i.e. the
+    meaning is preserved and only the SPELLING of delimiters inside values changes; the property's sentence "literal
+    ones stay literal, so the number and boundaries of … query pairs never change" is violated in its premise, not in
+    its conclusion about pairs (the '&'-piece COUNT does change for an empty piece).  NOT in KNOWN_FINDINGS.jsonl as
+    an entry of its own (F-C02-query-replace is about decoded values: item 8).
  7. NEW (with C02More3.lean).  Trusted readings introduced by the statements of items 5 / 6: `stripSurr`,
     `C02_Utf8Encodable` (proved equal to `PyStr ∧ NoSurrogate`; that Python's `str.encode("utf-8")` raises exactly
     outside it is a REMARK, not expressible in the model), `C02_EscSurrFree`, `C02_formVal` (proved:
@@ -367,6 +414,37 @@ GAPS:
     is what makes `pctDecode "%\ud80041"` the bytes "%41").  The two computed constructor counterexamples run with an
     NFKC oracle that is the identity on their authority texts ("%\ud80041:%\udfff42@h", "h") — an assumption about
     `unicodedata.normalize` on ASCII text with lone surrogates, checked by the differential harness only.
+    ADDED (with C02QueryStr.lean).  Trusted readings introduced by the statements of items 3 / 6 / 8: `R15.pieces`,
+    `R15.keyText`, `R15.valText`, `R15.ValidUtf8` ("is the `utf8s` of some `GoodText` string" — the model's own UTF-8
+    encoder `utf8s` defines validity; it is not compared with RFC 3629 here), `R15.EscapesValid`,
+    `R15.ex` — six short definitions, spelled out by `rfl` / `Iff.rfl` in C02_headline_qstr_vocabulary_def;
+    `formDecode` = `decodeReplace ∘ pctDecodeQs` is the model's transcription of `bytes.decode('utf-8', 'replace')`
+    (maximal-subpart replacement), tied to CPython by the differential harness only: the general statement of item 8
+    covers a single undecodable BYTE (C0, C1, F5..FF) in a text whose prefix has no '%' / '+'; truncated multi-byte
+    sequences ('%e4%bd', named in F-C02-query-replace) are covered by the iff with `EscapesValid` but have no
+    "how many U+FFFD" statement.  That `URL.__mod__` is `update_query` is a READING of the source (C12Headline.lean
+    GAPS 12).  The `C02_qstr_instance_*` theorems are evaluated in the model for every `Env` (both backends, any
+    oracles); that the library returns the same URLs is recorded in the header of C02QueryStr.lean ("observed on the
+    real library") and checked by the differential harness, not proved.
+ 8. NEW (with C02QueryStr.lean).  "Auto-encoding preserves every decoded value" is FALSE for update_query(<str>) (and
+    `url % <str>`) when an escape of the string — or of an OLD pair, every pair being re-rendered — is not valid
+    UTF-8: KNOWN FINDING F-C02-query-replace (KNOWN_FINDINGS.jsonl; witness URL('http://h/p').update_query('bad=%FF');
+    same root as F-C06-query-replace: `parse_qsl(errors='replace')`).  Stated EXACTLY by C02_qstr_parse_bytes_iff,
+    C02_qstr_formDecode_exact_iff, C02_qstr_update_undecodable_byte, C02_qstr_update_undecodable_escape,
+    C02_qstr_update_undecodable_not_valid, C02_qstr_update_replacement_stored, C02_qstr_instance_update_query_replace,
+    C02_qstr_instance_update_query_rewrites_old (C02QueryStr.lean), see
+    C02_headline_qstr_update_query_bytes_iff_escapes_valid, C02_headline_qstr_update_query_fails_for_undecodable_escape
+    (C02HeadlineMore5.lean): the bytes are preserved for every piece IFF `EscapesValid s`; a byte that occurs in no
+    well-formed UTF-8 sequence becomes ONE U+FFFD, stored "%EF%BF%BD" on both backends;
+    `URL("http://h/").update_query("bad=%FF")` is http://h/?bad=%EF%BF%BD and `URL("http://h/?a=%FF").update_query("b=1")`
+    is http://h/?a=%EF%BF%BD&b=1.  The constructor, with_query and extend_query do not have the effect (items 2, 3).
+    The identity theorems of item 3 for update_query (pairs / mapping arguments, C02_headline_update_query) carry
+    `GoodPairs (queryPairs u)` and speak about the DECODED old pairs, so they do not contradict this: the old stored
+    text "%FF" decodes (errors='replace') to U+FFFD before it is compared.  Not stated: an exact description of the
+    stored text for an arbitrary invalid sequence (only single bytes, see item 7); that `update_query` with a pairs /
+    mapping argument rewrites an OLD pair with an invalid escape in the same way is to be expected (every pair is
+    re-rendered from `queryPairs u`) but is proved on an instance for the string form only
+    (C02_qstr_instance_update_query_rewrites_old).
 -/
 
 end Yarl
